@@ -1072,6 +1072,71 @@ done:
 	return cs
 }
 
+// genStaleCommitCase: two commit frames behind the acknowledged tail, neither of them good. An append fails after all
+// its bytes were written (the fsync fails; the writer rolls back in memory only, the bytes stay in the file); the next
+// batch is in flight when the power fails: it is shorter, ends exactly on a frame boundary of the failed batch, and of
+// its chunks only the first (the entry's frame header) and the last (its commit frame) reach the disk. The scan then
+// sees: the torn entry, its commit (CRC wrong), the intact stale frames of the failed batch, the failed batch's commit
+// (CRC wrong too, its range was overwritten). Recovery must go back to the last acknowledged commit — accepting
+// "the commit before the last one" unchecked fabricates an entry made of two batches.
+func genStaleCommitCase(r *Rng, id string) *Case {
+	g := &segGen{r: r, impl: newSegImpl(), tags: map[string]bool{"stale-commit": true, "tear": true, "fault": true}}
+	g.base = pick(r, []uint64{1, 7, 100})
+	g.next = g.base
+	g.size = 4096
+	g.codec = 0
+	g.id = uint64(r.Intn(3))
+	g.do("new " + g.infoArgs())
+	n0 := 1 + r.Intn(3)
+	if g.do("app n"+g.batch(n0)) == "ok" {
+		g.next += uint64(n0)
+	}
+	p1, p2, p3 := 8*(1+r.Intn(4)), 8*(1+r.Intn(4)), 8*(1+r.Intn(3))
+	nTail := 1 + r.Intn(2) // stale entry frames that follow the point where the torn batch ends
+	var fa strings.Builder
+	sizes := []int{p1, p2}
+	for k := 0; k < nTail; k++ {
+		sizes = append(sizes, p3)
+	}
+	for k, p := range sizes {
+		fmt.Fprintf(&fa, " %d:%s", g.next+uint64(k), hx(r.Bytes(p)))
+	}
+	g.do("app s" + fa.String()) // fsync fails: error, nothing acknowledged, bytes stay behind the tail
+	g.do("last")
+	// frame(b1) + commit frame = frame(a1) + frame(a2)  <=>  len(b1) = p1 + p2   (all multiples of 8)
+	chunks := (8 + p1 + p2 + 8) / 8
+	mask := "1" + strings.Repeat("0", chunks-2) + "1"
+	if r.Chance(1, 3) {
+		// a second chunk of the payload lands as well
+		b := []byte(mask)
+		b[1+r.Intn(chunks-2)] = '1'
+		mask = string(b)
+	}
+	g.do(fmt.Sprintf("tear %s %d:%s", mask, g.next, hx(r.Bytes(p1+p2))))
+	if g.do("recover "+g.infoArgs()) == "ok" {
+		g.do("last")
+		g.do("file")
+		for idx := g.base; idx <= g.next+2; idx++ {
+			g.do(fmt.Sprintf("get %d", idx))
+		}
+		// and the recovered writer takes the next batch, which survives a further restart
+		if g.do("app n"+g.batch(1)) == "ok" {
+			g.next++
+		}
+		if g.do("recover "+g.infoArgs()) == "ok" {
+			g.do("last")
+			for idx := g.base; idx <= g.next+1; idx++ {
+				g.do(fmt.Sprintf("get %d", idx))
+			}
+		}
+	}
+	cs := &Case{ID: id, Props: []string{"C01", "C02", "C03", "C09", "C10", "C11", "C15"}, SpecProps: []string{"C09"}, Ops: g.ops, Impl: g.out, Exec: execSegment, Monitor: segMonitor}
+	cs.Tags = []string{"stale-commit"}
+	cs.NonTrivial = true
+	cs.Shape = fmt.Sprintf("stale-commit/%d/%d/%d/%d", p1, p2, p3, nTail)
+	return cs
+}
+
 func suiteSegment(seed uint64, tier string) *Report {
 	rep := newReport("segment", seed, tier)
 	rep.Rule = "generated workloads on one segment file through the real segment.Filer over simfs: appends of varied batch shapes/sizes until sealing, force-seal, I/O faults with partial writes, crash chains (in-flight append torn by an 8-byte-chunk mask, recovery, appends over the stale bytes with aligned shapes, tear again), damaged files (bit flips, splices, truncations, length edits, zero/garbage runs), sealed-reader and dump reads; every output and the file's length+CRC compared with Model.Segment. Non-trivial = hits sealing, a tear, a fault, damage or an error outcome; distinct by the set of such features, segment size and length class."
@@ -1090,6 +1155,7 @@ func suiteSegment(seed uint64, tier string) *Report {
 	}
 	for i := 0; i < ninj; i++ {
 		cases = append(cases, genFrameInjectionCase(r.Fork(), fmt.Sprintf("seg-inject-%d-%d", seed, i)))
+		cases = append(cases, genStaleCommitCase(r.Fork(), fmt.Sprintf("seg-stalecommit-%d-%d", seed, i)))
 	}
 	RunCases("segment", cases, rep)
 	return rep
